@@ -46,6 +46,11 @@ struct vhost {
     int connected;
 };
 extern int stub_connerr;        /* stub module reports connect failures the way xrcmd.c does */
+extern int stub_resolve;        /* `resolve 1`: the transport wants resolved addresses (like rsh): dsh.c looks every
+                                 * target up (gethostbyname is served by the harness: ONE static buffer, as in libc)
+                                 * and the stub checks that the address it is handed is the target's own */
+extern int stub_wrong_addr;     /* connects that were handed another target's address */
+extern void stub_addr_of(int h, unsigned char *out4);
 extern struct vhost vhosts[MAXHOSTS];
 extern int nvhosts;
 
